@@ -12,6 +12,7 @@
   records (Go's m[NaN] lookup); such schemas are outside this theorem's tie (DESIGN §8 #20).
 -/
 import Bebop.Props.C01
+import Bebop.Proofs.FuelMono
 
 namespace Bebop
 
@@ -32,6 +33,28 @@ theorem C07_advance_covers_size (env : Env) (fuel : Nat) (ty : Ty) (buf rest : L
     (h : dec fuel env true ty buf = .ok (v, rest)) : rest.length + gsize env ty v ≤ buf.length := by
   have := (dec_adv_all env fuel).1 ty buf
   rw [h] at this; exact this
+
+/-- The fuel argument is an artefact of the model (Go's decoders have none): two runs that both finish
+    — with a value, an error, or a panic — give the same answer, whatever fuel each was given.  So the
+    theorems above, stated for any fuel, describe one function of (schema, bytes). -/
+theorem C07_answer_independent_of_fuel (env : Env) (f g : Nat) (safe : Bool) (n : Nat) (buf : List Byte)
+    (hf : unmarshal f env safe n buf ≠ .fuel) (hg : unmarshal g env safe n buf ≠ .fuel) :
+    unmarshal f env safe n buf = unmarshal g env safe n buf := by
+  rcases Nat.le_total f g with h | h
+  · exact (unmarshal_fuel_mono env f g h safe n buf hf).symm
+  · exact unmarshal_fuel_mono env g f h safe n buf hg
+
+/-- and an answer reached with some fuel is the answer for every larger fuel (nested position too). -/
+theorem C07_more_fuel_same_answer (env : Env) (f g : Nat) (hfg : f ≤ g) (safe : Bool) (ty : Ty)
+    (buf : List Byte) (h : dec f env safe ty buf ≠ .fuel) :
+    dec g env safe ty buf = dec f env safe ty buf := dec_fuel_mono env f g hfg safe ty buf h
+
+/-- Non-vacuity: the hostile buffer below is answered at fuel 20 (and hence at every larger fuel), while
+    fuel 3 is not enough — the hypothesis is needed. -/
+example : (unmarshal 3 exEnv true 3 [255, 255, 255, 255, 2, 0, 0, 0, 0, 2, 255, 255, 255, 127]).isFuel = true := by
+  decide
+example : (unmarshal 20 exEnv true 3 [255, 255, 255, 255, 2, 0, 0, 0, 0, 2, 255, 255, 255, 127]).isFuel = false := by
+  decide
 
 /-- The unchecked variant is exempt; and it really does panic, e.g. on the empty buffer. -/
 example : (unmarshal 5 exEnv false 0 []).isPanic = true := by decide
